@@ -16,6 +16,9 @@ def engine_for(prop):
     import engine_solver
     if prop in engine_solver.CONFIG:
         return engine_solver
+    import engine_sol
+    if prop in engine_sol.CONFIG:
+        return engine_sol
     raise SystemExit('no check registered for ' + prop)
 
 
